@@ -31,6 +31,11 @@
 //!   `value_pending_spendability`; nothing is ever locked or pending change here; an un-mined coin is never
 //!   spendable under the no-zero-conf policy; an un-mined coinbase coin is never spendable.
 //!
+//! * observation, not asserted (C01 fixes total + uneconomic only; DESIGN.md 9.4): `get_wallet_summary` applies the dust
+//!   threshold to the summed value of a group of coins (same account, coinbase or not, >= 100 confirmations or not)
+//!   instead of each coin. A balance that the per-coin split does not explain is accepted iff this second reading
+//!   (`dust_group_reading`) explains it exactly, and counted under `observation:transparent-dust-threshold-applied-to-summed-group`.
+//!
 //! At the end every gap is scanned and, when no MAY coin and no unexpired un-mined spender is left, the balances are
 //! compared with those of a fresh wallet that scans the chain once and is told the mined coin transactions in order.
 
@@ -162,7 +167,8 @@ enum COp {
     /// an un-mined transaction (creating or spending coins) is announced as mined at a height of the current branch
     Remine { sel: u32, api: Api, depth: u8 },
     /// a transaction the wallet already knows is reported again, unchanged, through either API
-    Repeat { sel: u32, api: Api },
+    /// (`without_height`: even if it is mined the caller passes no height: "unknown to the caller", which must not un-mine it)
+    Repeat { sel: u32, api: Api, without_height: bool },
     /// one empty block (scanned); a coin mined in it; a reorganisation removes that block (rewind by 1 + `extra`);
     /// `n` new blocks; then possibly the same transaction is mined again on the new branch
     RecvThenReorg { recv: CoinRecv, extra: u8, n: u8, remine: Option<(Api, u8)> },
@@ -172,6 +178,9 @@ enum COp {
     CoinbaseMatured { account: u8, slot: Slot, value: u64, n: u8 },
     /// a UTXO listing that is ahead of the wallet: a coin mined `k` blocks above the wallet's tip, then the tip catches up
     RecvAboveTip { account: u8, slot: Slot, value: u64, k: u8 },
+    /// the wallet hears of the transaction that SPENDS a coin (mined or in the mempool; it pays the account again, so
+    /// the wallet stores it) before it hears of the coin itself (mined two blocks below the tip)
+    SpendBeforeRecv { account: u8, slot: Slot, value: u64, spend_mined: bool, recv_api: Api, expiry: ExpSel, back: u64 },
 }
 
 #[derive(Clone, Debug)]
@@ -246,12 +255,14 @@ fn arb_cop(na: u8) -> impl Strategy<Value = COp> {
         10 => arb_coin_recv(na).prop_map(COp::Recv),
         7 => arb_coin_spend().prop_map(COp::Spend),
         3 => (any::<u32>(), arb_api(), 0u8..6).prop_map(|(sel, api, depth)| COp::Remine { sel, api, depth }),
-        2 => (any::<u32>(), arb_api()).prop_map(|(sel, api)| COp::Repeat { sel, api }),
+        3 => (any::<u32>(), arb_api(), prop::bool::weighted(0.4)).prop_map(|(sel, api, without_height)| COp::Repeat { sel, api, without_height }),
         3 => (arb_coin_recv(na), 0u8..2, 1u8..4, prop::option::weighted(0.4, (arb_api(), 0u8..3))).prop_map(|(recv, extra, n, remine)| COp::RecvThenReorg { recv, extra, n, remine }),
         3 => (arb_coin_spend(), 0u8..2, 1u8..4, prop::option::weighted(0.4, 0u8..3)).prop_map(|(spend, extra, n, remine)| COp::SpendThenReorg { spend, extra, n, remine }),
         2 => (0..na.max(1), arb_slot(), prop_oneof![2 => Just(625_000_000u64), 3 => 10_000u64..2_000_000, 2 => arb_coin_value()], prop_oneof![4 => 97u8..=100, 1 => 90u8..=110])
             .prop_map(|(account, slot, value, n)| COp::CoinbaseMatured { account, slot, value, n }),
         1 => (0..na.max(1), arb_slot(), arb_coin_value(), 1u8..4).prop_map(|(account, slot, value, k)| COp::RecvAboveTip { account, slot, value, k }),
+        2 => (0..na.max(1), arb_slot(), arb_coin_value(), any::<bool>(), arb_api(), arb_exp_sel(), arb_coin_value())
+            .prop_map(|(account, slot, value, spend_mined, recv_api, expiry, back)| COp::SpendBeforeRecv { account, slot, value, spend_mined, recv_api, expiry, back }),
     ]
 }
 
@@ -377,6 +388,8 @@ struct Stats {
     l_mined_unscanned: bool,
     l_above_tip: bool,
     l_nobody: bool,
+    l_repeat_without_height: bool,
+    l_spend_before_recv: bool,
     l_unknown_expiry_unmined: bool,
     obs_per_address_sum_differs: bool,
     obs_per_address_immature_spendable: bool,
@@ -682,7 +695,7 @@ fn dust_group_reading(m: &Model, tip: u32, zero_conf: bool, account: u8, want_cb
     let must = e.spendable + e.pending + e.uneconomic;
     let total = got.0 + got.1 + got.2;
     if !may.is_empty() {
-        return total >= must && subset_sum(&may, total - must) && (zero_conf || got.0 <= e.spendable + e.uneconomic);
+        return total >= must && subset_sum(&may, total - must) && (zero_conf || got.0 <= e.spendable + e.uneconomic) && got.2 <= e.uneconomic + e.may_dust.iter().sum::<u64>();
     }
     // groups of the "confirmed" query: (at least 100 confirmations?) -> sum; of the "unconfirmed" query: one group
     let mut confirmed: BTreeMap<bool, u64> = BTreeMap::new();
@@ -1246,7 +1259,7 @@ fn do_remine(h: &mut Hist, m: &mut Model, st: &mut Stats, sel: u32, api: Api, de
     tell(h, m, st, tix, api, Some(height), step)
 }
 
-fn do_repeat(h: &mut Hist, m: &mut Model, st: &mut Stats, sel: u32, api: Api, step: &str) -> Result<(), Fail> {
+fn do_repeat(h: &mut Hist, m: &mut Model, st: &mut Stats, sel: u32, api: Api, without_height: bool, step: &str) -> Result<(), Fail> {
     let Some(tip) = h.w.chain_height() else { return Ok(()) };
     if tip <= h.base() {
         return Ok(());
@@ -1260,7 +1273,10 @@ fn do_repeat(h: &mut Hist, m: &mut Model, st: &mut Stats, sel: u32, api: Api, st
         return Ok(());
     }
     let tix = cands[vcore::pick_index(sel, cands.len())];
-    let height = m.ttxs[tix].mined;
+    let height = m.ttxs[tix].mined.filter(|_| !without_height);
+    if without_height && m.ttxs[tix].mined.is_some() {
+        st.l_repeat_without_height = true;
+    }
     tell(h, m, st, tix, api, height, step)
 }
 
@@ -1300,7 +1316,7 @@ fn do_cop(ctx: &Ctx, h: &mut Hist, m: &mut Model, st: &mut Stats, op: &COp, step
             do_spend(h, m, st, sp, step)?;
         }
         COp::Remine { sel, api, depth } => do_remine(h, m, st, *sel, *api, *depth, None, step)?,
-        COp::Repeat { sel, api } => do_repeat(h, m, st, *sel, *api, step)?,
+        COp::Repeat { sel, api, without_height } => do_repeat(h, m, st, *sel, *api, *without_height, step)?,
         COp::CoinbaseMatured { account, slot, value, n } => {
             let recv = CoinRecv { how: RecvHow::Coinbase { also_put: None }, account: *account, outs: vec![(0, Some(*slot), *value)], depth: 0, expiry: ExpSel::Never };
             do_recv(h, m, st, &recv, step)?;
@@ -1324,6 +1340,32 @@ fn do_cop(ctx: &Ctx, h: &mut Hist, m: &mut Model, st: &mut Stats, op: &COp, step
             }
             let up = (tip + *k as u32).max(h.w.chain_height().unwrap_or(0));
             h.announce_tip(up, step)?;
+        }
+        COp::SpendBeforeRecv { account, slot, value, spend_mined, recv_api, expiry, back } => {
+            let Some(tip) = h.w.chain_height() else { return Ok(()) };
+            let base = h.base();
+            if tip <= base {
+                return Ok(());
+            }
+            let na = h.world.accounts.len() as u8;
+            let a = *account % na;
+            let v = m.mint(*value);
+            let h_t = tip.saturating_sub(2).max(base + 1);
+            let h_s = tip.saturating_sub(1).max(h_t);
+            let t_tix = new_ttx(m, vec![], vec![(Some((a, *slot)), m.addr(a, *slot), v)], 0, false);
+            let key = (m.ttxs[t_tix].txid, 0u32);
+            let mined_at = spend_mined.then_some(h_s);
+            let back_v = m.mint((*back).min(v - v / 4));
+            let outs = vec![(None, TransparentAddress::PublicKeyHash(hash20(&m.seed, 0x6d)), v / 4), (Some((a, Slot::Default)), m.addr(a, Slot::Default), back_v)];
+            let s_tix = new_ttx(m, vec![key], outs, resolve_expiry(*expiry, tip, mined_at), false);
+            tell(h, m, st, s_tix, Api::Full, mined_at, step)?;
+            check_coins(ctx, h, m, st, step)?;
+            // a listing of unspent outputs does not report an output that a mined transaction spends
+            let api = if *spend_mined { Api::Full } else { *recv_api };
+            tell(h, m, st, t_tix, api, Some(h_t), step)?;
+            if m.ttxs[s_tix].told && m.ttxs[t_tix].told {
+                st.l_spend_before_recv = true;
+            }
         }
         COp::RecvThenReorg { recv, extra, n, remine } => {
             advance(h, 1, true, step)?;
@@ -1527,6 +1569,8 @@ fn run_case_inner(ctx: &Ctx, case: &TCase) -> CaseResult {
         .label_if(st.l_mined_unscanned, "coin-mined-at-unscanned-height")
         .label_if(st.l_above_tip, "coin-mined-above-wallet-tip")
         .label_if(st.l_nobody, "output-to-nobodys-address")
+        .label_if(st.l_spend_before_recv, "spender-told-before-coin")
+        .label_if(st.l_repeat_without_height, "mined-tx-reported-again-without-height")
         .label_if(st.rewinds_unmining_coin_tx > 0, "rewind-unmines-coin-tx")
         .label_if(st.fresh_compared > 0, "compared-with-fresh-wallet")
         .label_if(st.rejected > 0, "coin-op-rejected-by-wallet")
@@ -1560,6 +1604,22 @@ pub fn run(ctx: &Arc<Ctx>) {
     ctx.assume("WEAKER STATEMENT where the documentation leaves a choice: a coin of an un-mined, unexpired transaction (never mined, orphaned by a rewind, or reported mined above the wallet's tip) MAY or MAY NOT count (C01: 'in blocks of the current chain' vs unshielded_balance rustdoc: value without the required confirmations is pending); if it counts it is uneconomic when <= 5000, never spendable under a policy without zero-conf, never spendable when the wallet knows it is coinbase; the wallet's choices are counted as observation:* labels");
     ctx.assume("split (Balance / unshielded_balance rustdoc, repository tests transparent_balance_spendability, transparent_coinbase_balance_split, transparent_coinbase_balance_dust): value <= 5000 is uneconomic_value only; a mined coin is spendable iff tip + 1 - mined_height >= required confirmations (0 under ConfirmationsPolicy::MIN, 3 under the second policy) and, for an output the wallet knows to be coinbase, tip + 1 - mined_height >= 100; else value_pending_spendability; locked and pending-change value are zero; get_transparent_balances is only held to value conservation (total, uneconomic) per address");
     ctx.assume("the total transparent value of one case stays below MAX_MONEY / 4 (a chain cannot hold more; AccountBalance rejects sums above MAX_MONEY)");
+    ctx.extra(
+        "rule:transparent-balances",
+        serde_json::json!(
+            "proptest cases: a chainsim wallet history (arb_case_opts(10, 6, true): world with 1-3 accounts, blocks, scans in any order, tip updates, rewinds with/without reorg, \
+             re-mined shielded transactions) + 1-8 empty blocks, then 8-25 ops: 60 % coin ops (Recv: put_received_transparent_utxo with a height of the current branch or None / \
+             decrypt_and_store_transaction mined or mempool / both APIs in either order / coinbase (full tx, optionally also listed; or listed only), 1-2 outputs of value 0, 1..4999, \
+             5000, 5001, ordinary, MAX_MONEY/64, MAX_MONEY (clipped to a per-case budget) to the default receiver / external index 1, 2 / internal index 0 of this or the next account or to \
+             nobody's address, mined 0-59 below the wallet tip, expiry 0 / tip+1+k (k < 45) / stale; Spend of 1-2 coins by a mined / mempool / stored transaction, optional output back to the \
+             wallet; Remine of an un-mined transaction through either API; Repeat of a known transaction through either API; RecvThenReorg and SpendThenReorg (block scanned, transaction \
+             mined in it, reorganising rewind by 1-2, 1-3 new blocks, optionally mined again); CoinbaseMatured (coinbase at the tip, then 90-110 blocks); RecvAboveTip (a listing ahead of \
+             the wallet by 1-3 blocks)), 25 % history ops (arb_op_opts incl. truncate_to_chain_state and ReMine), 15 % Advance (1-6, 35-45 or 95-105 empty blocks, scanned or not). After \
+             every op (and inside the composite ones) both confirmation policies are queried for every account and address. Every other case ends with a settle phase (everything mineable is \
+             reported mined, 47 blocks pass), then all gaps are scanned and a determined final state is compared with a fresh wallet. Non-trivial = some checked state had a coin that must \
+             count and some checked state had a coin that must not (spent / expired); distinct = hash of the case."
+        ),
+    );
     let tier = ctx.tier;
     ctx.run_prop_with(SUB, arb_tcase, tier.pick(600, 9_000), 80, |c| run_case(ctx, c));
     // generator health: minima at no more than half the measured fractions (quick tier, seeds 1..5)
@@ -1572,7 +1632,9 @@ pub fn run(ctx: &Arc<Ctx>) {
         ("coin-expired", 0.20),
         ("coin-spent-by-mined-tx", 0.30),
         ("coin-spent-by-mempool-tx", 0.20),
-        ("coin-spent-by-stored-tx", 0.15),
+        ("coin-spent-by-stored-tx", 0.10),
+        ("spender-told-before-coin", 0.18),
+        ("mined-tx-reported-again-without-height", 0.05),
         ("coin-spent-by-orphaned-unexpired-tx", 0.20),
         ("coin-counts-again-after-spender-expired", 0.12),
         ("coin-of-other-account", 0.25),
